@@ -373,8 +373,8 @@ def run():
                       rule='all 1<=p<=n<=%d (one random rank each, full mpi tables) + random N-d layouts + random accepted '
                            'handler configurations on <=%d simulated ranks; non-trivial = some p>1' % (box, 6 if quick else 12),
                       extra={'exhaustive_box': box, 'exprt': info_t if ok_t else {'broken': info_t}},
-                      uncovered=['buffer sufficiency for the reverse orientation of each pair and for every layout beyond the first is '
-                                 'exercised (arrays of exactly bufferSize in every transpose), not proved',
+                      uncovered=['buffer sufficiency is proved for the first layout and for the source layout of every enumerated pair (c02_pair_bufsize_ge_size); '
+                                 'for the destination layout of a pair / the reverse orientation it is exercised (arrays of exactly bufferSize in every transpose), not proved',
                                  'getCoords/getEta/getCoordVals value lookups are checked on real Grid objects, not modelled in Coq'])
 
 
